@@ -475,7 +475,9 @@ def run_c17(pid, tier):
                        ([('s',), ('F', 'st/missing.css'), ('f', 'st/a.css'), ('A', 'st/none.js', 'n.js'), ('a', 'st/sub/b.js', 'b.js')], ["st/a.css", "st/sub/b.js"]),
                        ([('c', 't'), ('s',), ('G', 'st/sub/deep/c.png'), ('t', 'st', ''), ('g', 'st/sub')], ["t", "t/x.rs.html", "st", "st/sub", "st/sub/b.js"])]:
         iscen.append(tree + [('R', prog), ('R', prog)]); ineed.append(need)
-    for broken in ["@()\n@if a {\n", "@()\n<p>\n@for x in xs {\n  <li>\n", "@()\n@* never closed\n", "@(a: u8)\n@match a {\n  1 => {one}\n"]:
+    for broken in ["@()\n@if a {\n", "@()\n<p>\n@for x in xs {\n  <li>\n", "@()\n@* never closed\n", "@(a: u8)\n@match a {\n  1 => {one}\n",
+                   # an error on a line of several thousand bytes (a minified page): the diagnostic echoes the line
+                   "@()\n<p>" + "minified " * 400 + "@if {\n", "@()\n" + "é" * 3000 + "}"]:
         t2 = [('W', 'tt/last.rs.html', broken), ('W', 'st/a.css', 'a{}'), ('W', 'st2/b.js', 'b'), ('W', 'more/x.rs.html', '@()\nx')]
         for prog, need in [([('c', 'tt'), ('s',), ('f', 'st/a.css'), ('g', 'st2')], ["tt", "tt/last.rs.html", "st/a.css", "st2", "st2/b.js"]),
                            ([('c', 'tt'), ('c', 'more')], ["tt", "tt/last.rs.html", "more", "more/x.rs.html"]),
